@@ -192,7 +192,7 @@ theorem mem_dropLast_or_last {α : Type} (xs : List α) (x : α) (h : x ∈ xs) 
 /-- every token the lexer model sends is long enough for the slices the parser takes of it -/
 theorem lex_wf (input : Bytes) (exprMode : Bool) (is : List Item)
     (h : Lex.lexAll input exprMode = .items is) : ∀ it ∈ is, WFItem it := by
-  obtain ⟨is', hl, ⟨e, hlast, hty⟩, _, hok⟩ := lex_items input exprMode
+  obtain ⟨is', hl, ⟨e, hlast, hty⟩, _, hok, _⟩ := lex_items input exprMode
   rw [h] at hl
   simp only [Lex.LexResult.items.injEq] at hl
   subst hl
@@ -207,7 +207,7 @@ theorem lex_wf (input : Bytes) (exprMode : Bool) (is : List Item)
 /-- the EOF item is only ever the last item of the lexer -/
 theorem lex_eof_last (input : Bytes) (exprMode : Bool) (is : List Item)
     (h : Lex.lexAll input exprMode = .items is) : ∀ it ∈ is.dropLast, it.typ ≠ .tEOF := by
-  obtain ⟨is', hl, _, _, hok⟩ := lex_items input exprMode
+  obtain ⟨is', hl, _, _, hok, _⟩ := lex_items input exprMode
   rw [h] at hl
   simp only [Lex.LexResult.items.injEq] at hl
   subst hl
@@ -220,7 +220,7 @@ theorem lex_eof_last (input : Bytes) (exprMode : Bool) (is : List Item)
     the EOF item or an Error item, and no item before that is an EOF, Error or invalid item -/
 theorem lex_shape (input : Bytes) (exprMode : Bool) (is : List Item)
     (h : Lex.lexAll input exprMode = .items is) : LexShape is := by
-  obtain ⟨is', hl, ⟨last, hlast, hty⟩, _, hok⟩ := lex_items input exprMode
+  obtain ⟨is', hl, ⟨last, hlast, hty⟩, _, hok, _⟩ := lex_items input exprMode
   rw [h] at hl
   simp only [Lex.LexResult.items.injEq] at hl
   subst hl
